@@ -195,6 +195,14 @@ WHITELIST = [
      {"T": "list[float]", "interp_points": "objlist[Obs]", "running_id": "int"},
      {"make": {"Obs(ENUCoords(_, _, _), ObsTime.readUnixTime(_))": "Obs"}, "result_call": "track.setObsList",
       "variants": {"prepareTimeSampling": "prepareTimeSampling_number"}}),
+    ("algo/interpolation.py", "__resampleTemporal", "resampleTemporal_list", {"track": "objlist[Obs]", "reference": "list[record[AbsTime]]"}, "objlist[Obs]",
+     {"T": "list[float]", "interp_points": "objlist[Obs]", "running_id": "int"},
+     {"make": {"Obs(ENUCoords(_, _, _), ObsTime.readUnixTime(_))": "Obs"}, "result_call": "track.setObsList",
+      "variants": {"prepareTimeSampling": "prepareTimeSampling_list"}}),
+    ("algo/interpolation.py", "__resampleTemporal", "resampleTemporal_track", {"track": "objlist[Obs]", "reference": "objlist[Obs]"}, "objlist[Obs]",
+     {"T": "list[float]", "interp_points": "objlist[Obs]", "running_id": "int"},
+     {"make": {"Obs(ENUCoords(_, _, _), ObsTime.readUnixTime(_))": "Obs"}, "result_call": "track.setObsList",
+      "variants": {"prepareTimeSampling": "prepareTimeSampling_track"}}),
     ("core/utils.py", "isnan", "isnan", {"number": "float"}, "bool", {}),
     ("core/utils.py", "co_sum", "co_sum", {"tarray": "list[float]"}, "float", {"somme": "float"}, {"assume_identity": ["listify"]}),
     ("core/utils.py", "co_min", "co_min", {"tarray": "list[float]"}, "float", {}, {"assume_identity": ["listify"]}),
@@ -367,6 +375,8 @@ RESERVED = {"decide", "Int", "Nat", "List", "Option", "Bool", "Py", "some", "non
 
 def ident(name):
     """a Python parameter / local as a Lean binder: the same name; names the generated text itself uses are refused"""
+    if name in MATH_FUNS or name == "fuel":
+        return name + "'"       # a Python name equal to a parameter name of the generated code: primed (no Python name has a prime)
     if name in RESERVED or name in {e[2] for e in WHITELIST}:
         raise Unsupported("python name %s would capture a name used by the generated code" % name)
     if name in LEAN_KEYWORDS:
@@ -894,6 +904,27 @@ class FnTranslator:
                     v = self.expr(h, env, binds)
                     terms.append(self.coerce(h, v, lt))
                 return Val(terms[0] if len(terms) == 1 else "(" + ", ".join(terms) + ")", ("Rec", view))
+        return None
+
+    def static_bool(self, e, env):
+        """True / False when e is built from isinstance tests on declared parameters (with not / and / or); None otherwise"""
+        if isinstance(e, ast.UnaryOp) and isinstance(e.op, ast.Not):
+            v = self.static_bool(e.operand, env)
+            return None if v is None else not v
+        if isinstance(e, ast.BoolOp):
+            def has_isinstance(n):
+                return any(isinstance(m, ast.Call) and isinstance(m.func, ast.Name) and m.func.id == "isinstance" for m in ast.walk(n))
+            if not all(has_isinstance(v) for v in e.values):
+                return None
+            v = self.boolop(e, env, [])
+            if v.term in ("true", "false"):
+                return v.term == "true"
+            vals = [self.static_bool(x, env) for x in e.values]
+            if any(x is None for x in vals):
+                return None
+            return all(vals) if isinstance(e.op, ast.And) else any(vals)
+        if isinstance(e, ast.Call):
+            return self.isinstance_test(e, env)
         return None
 
     def isinstance_test(self, e, env):
@@ -1796,6 +1827,11 @@ class FnTranslator:
             return K.brk(s, env)           # statements after it on the same path are unreachable
         if isinstance(s, ast.Continue):
             return K.cont(s, env)
+        if isinstance(s, ast.If):
+            st = self.static_bool(s.test, env)
+            if st is not None:
+                # the test is an isinstance test decided by the declared kinds: only the branch taken is translated
+                return self.block(list(s.body if st else s.orelse) + rest, env, fresh, K)
         if isinstance(s, ast.If) and self.has_loop(rest) and not self.has_jump([s]) \
                 and all(n in env or (isinstance(self.locals.get(n), tuple) and self.locals[n][0] == "U") for n in self.stored_names([s])):
             return self.if_join(s, rest, env, fresh, K)
